@@ -8,6 +8,20 @@ from checks import parsegen, parse_common
 
 THEOREMS = ["C09_parse_total", "C09_scan_boundaries", "C09_parse_old_refuted", "C09_parse_fixed_witness"]
 PROPS = "theories/Props/C09.v"
+REGISTRY = {
+    "level": "proof",
+    "technique": "Coq totality proof of the parser model (no Panic, fuel adequacy) + differential correspondence under catch_unwind",
+    "text": "C09_parse_total: for EVERY string ParsedValue::new (model) returns Ok/Err, never panics (every recorded slice offset is a "
+            "character boundary: C09_scan_boundaries) and needs at most length+2 nested calls. The model is tied to /repo by running the "
+            "real parser under catch_unwind on a malformed stream (grammar-aware mutations, token soups, foreign-key argument variants, "
+            "multibyte characters next to delimiters) and comparing result classes. Partial: ranges/plurals/merge/resolution/codegen totality "
+            "are being added; stack depth and wall-clock are runtime behaviour (the theorem bounds the recursion depth).",
+    "design_ref": "DESIGN.md §5 C09",
+    "note": "Trusted: Coq kernel + vm_compute; model tied by correspondence; syn::Ident and serde_json are oracles assumed not to panic; "
+            "Python generator; h_parser harness. No axioms.",
+    "engine": "coq",
+    "packages": [("h_parser",)],
+}
 
 
 def shrink(ctx, s, pred):
